@@ -59,6 +59,14 @@ def run_session(sess, wdir, idx):
            "ncache": sess.get("ncache", 0), "order": kc["order"], "style": kc.get("style", "tf"), "nc": max(kc["extents"].values()),
            "expr0": kc["expr"], "ops0": kc["ops"], "zshape": kc.get("zshape", 1), "tiled": 1 if kc.get("tile") else 0, "plus": 1 if kc["expr"].get("plus") else 0}
     prefix = os.path.join(wdir, f"s{idx}")
+    proj.VALUE_MAP = proj.VALUE_MAPS.get(kc.get("vmap", ""))
+    try:
+        return _run_session(sess, kc, out, prefix)
+    finally:
+        proj.VALUE_MAP = None
+
+
+def _run_session(sess, kc, out, prefix):
     used, expr1, z = kernel.prepare(kc)
     out["expr1"] = expr1
     out["ops1"] = {t: proj.strip(proj.proj_tensor(u)["root"]) for t, u in used.items()}
